@@ -1,11 +1,12 @@
 (* C13 — Declared accounts and path mutations are realized in the image.
-   Property theorems only; each is closed by [exact] of a lemma proved in
+   Property theorems only; each is closed by [exact]/[apply] of a lemma proved in
    Proofs/AccountsProofs.v / Proofs/PathMutProofs.v and followed by Print
-   Assumptions.  The default shell, home prefix, homeless marker, modes and
-   the passwd/group format strings are the ones goextract read from
-   accounts.go / passwd.go / group.go on this run (Generated/C13Consts.v). *)
-From Apko Require Import Base.Prelude Model.C13Fs Model.Accounts Generated.C13Consts
-  Spec.AccountsSpec Proofs.AccountsProofs.
+   Assumptions.  The default shell, home prefix, homeless marker, modes, the
+   passwd/group format strings and the mutator table are the ones goextract
+   read from accounts.go / passwd.go / group.go / paths.go on this run
+   (Generated/C13Consts.v); [maxl] is the filesystems' symlink nesting limit. *)
+From Apko Require Import Base.Prelude Model.C13Fs Model.Accounts Model.PathMut Generated.C13Consts
+  Spec.AccountsSpec Spec.PathMutSpec Proofs.AccountsProofs Proofs.PathMutProofs.
 Open Scope string_scope. Open Scope list_scope.
 
 (* the constants in the source are the documented defaults: /bin/sh, /home/,
@@ -17,13 +18,35 @@ Theorem c13_defaults_pinned :
 Proof. exact consts_are_spec. Qed.
 Print Assumptions c13_defaults_pinned.
 
-(* every configured user / group is turned into an entry that realises it, the
-   defaults being applied exactly when the field is unset *)
-Theorem c13_entries_realise_config : forall users groups,
-  Forall2 UserRealised users (List.map user_to_entry users) /\
-  Forall2 GroupRealised groups (List.map group_to_entry groups).
-Proof. intros. split; [apply map_realised | apply map_group_realised]. Qed.
-Print Assumptions c13_entries_realise_config.
+(* c13_passwd_group.  For every tree, account list and run-as name: when the
+   passwd half of mutateAccounts succeeds, the pre-existing text parsed to some
+   [old], and the file that Create finally opened holds exactly the written form
+   of old ++ map user_to_entry users, where every added entry realises its
+   configured user (name, ids, shell, home; defaults exactly when unset).
+   Likewise etc/group when groups are configured; it is not touched otherwise. *)
+Theorem c13_passwd_group : forall maxl f users groups ra f1 f' ra',
+  mutate_groups maxl f groups = FOk f1 -> mutate_users maxl f1 users ra = FOk (f', ra') ->
+  (exists fa txt old fb fc i,
+     read_or_create maxl f1 etc_passwd passwd_open_perm = FOk (fa, txt) /\ parse_users txt = Some old /\
+     ensure_homes maxl fa (old ++ List.map user_to_entry users) = FOk fb /\
+     openfile maxl maxl fb etc_passwd create_perm = FOk (fc, i) /\
+     f' = upd fc i (fun n => with_data n (write_users (old ++ List.map user_to_entry users))) /\
+     PasswdRealised old users (old ++ List.map user_to_entry users)) /\
+  (groups = [] -> f1 = f) /\
+  (groups <> [] -> exists fa txt old fb i,
+     read_or_create maxl f etc_group group_open_perm = FOk (fa, txt) /\ parse_groups txt = Some old /\
+     openfile maxl maxl fa etc_group create_perm = FOk (fb, i) /\
+     f1 = upd fb i (fun n => with_data n (write_groups (old ++ List.map group_to_entry groups))) /\
+     GroupFileRealised old groups (old ++ List.map group_to_entry groups)).
+Proof.
+  intros maxl f users groups ra f1 f' ra' Hg Hu. split; [|split].
+  - destruct (mutate_users_inv _ _ _ _ _ _ Hu) as (fa & txt & old & fb & fc & i & H1 & H2 & H3 & H4 & H5 & _).
+    exists fa, txt, old, fb, fc, i. repeat split; auto. exists (List.map user_to_entry users). split; [reflexivity | apply map_realised].
+  - intros ->. rewrite mutate_groups_none in Hg. inversion Hg. reflexivity.
+  - intro Hne. destruct (mutate_groups_inv _ _ _ _ Hne Hg) as (fa & txt & old & fb & i & H1 & H2 & H3 & H4).
+    exists fa, txt, old, fb, i. repeat split; auto. exists (List.map group_to_entry groups). split; [reflexivity | apply map_group_realised].
+Qed.
+Print Assumptions c13_passwd_group.
 
 Theorem c13_defaults_exactly_when_unset : forall u,
   let e := user_to_entry u in
@@ -33,3 +56,143 @@ Theorem c13_defaults_exactly_when_unset : forall u,
   ue_uid e = cu_uid u /\ ue_name e = cu_name u.
 Proof. exact defaults_exactly_when_unset. Qed.
 Print Assumptions c13_defaults_exactly_when_unset.
+
+(* c13_run_as.  run-as becomes the uid of the FIRST entry of that name in
+   old ++ configured — so a package-provided entry wins over a configured one —
+   and is unchanged when no entry matches (or when it is empty). *)
+Theorem c13_run_as : forall maxl f users ra f' ra',
+  mutate_users maxl f users ra = FOk (f', ra') ->
+  exists fa txt old, read_or_create maxl f etc_passwd passwd_open_perm = FOk (fa, txt) /\ parse_users txt = Some old /\
+    RunAsResolved ra (old ++ List.map user_to_entry users) ra' /\
+    (forall e, ra <> "" -> first_named ra old = Some e -> ra' = dec (ue_uid e)) /\
+    (first_named ra (old ++ List.map user_to_entry users) = None -> ra' = ra).
+Proof.
+  intros maxl f users ra f' ra' H.
+  destruct (mutate_users_inv _ _ _ _ _ _ H) as (fa & txt & old & fb & fc & i & H1 & H2 & _ & _ & _ & HR).
+  exists fa, txt, old. repeat split; auto.
+  - intros e Hne Hf. eapply run_as_prefers_old; eauto.
+  - intro Hn. eapply run_as_unchanged; eauto.
+Qed.
+Print Assumptions c13_run_as.
+
+(* c13_homes, the part that holds for EVERY entry and tree: a /dev/null home is
+   skipped; an existing directory (also through a symlink) leaves the whole
+   filesystem untouched; an existing non-directory is an error; a missing one is
+   made by MkdirAll(parent, 0755), Mkdir(home, 0700), Chown(home, uid, gid).
+   MISSING from the full statement ("Stat(home) afterwards is a 0700 directory
+   owned by the entry"): it needs "the path resolves to the node Mkdir just
+   made", which is FALSE for a home written with a trailing slash
+   (c13_homes_trailing_slash_refuted, finding C13-F3) and is not proved here for
+   the remaining homes; it is checked on every generated case instead. *)
+Theorem c13_homes_partial : forall maxl f e,
+  (ue_home e = no_home -> ensure_home maxl f e = FOk f) /\
+  (forall n, stat maxl f (path_of (ue_home e)) = FOk n -> is_dir n = true -> ensure_home maxl f e = FOk f) /\
+  (forall n, ue_home e <> no_home -> stat maxl f (path_of (ue_home e)) = FOk n -> is_dir n = false ->
+             ensure_home maxl f e = FErr) /\
+  (forall f', ue_home e <> no_home -> stat maxl f (path_of (ue_home e)) = FNotExist -> ensure_home maxl f e = FOk f' ->
+     exists f1 f2, mkdirall maxl f (pdir (path_of (ue_home e))) home_parent_perm = FOk f1 /\
+                   mkdir maxl f1 (path_of (ue_home e)) home_perm = FOk f2 /\
+                   chown maxl f2 (path_of (ue_home e)) (ue_uid e) (ue_gid e) = FOk f').
+Proof.
+  intros maxl f e. split; [apply ensure_home_homeless|]. split; [intros; eapply ensure_home_existing_dir; eauto|].
+  split; [intros; eapply ensure_home_non_directory; eauto|]. intros. eapply ensure_home_missing; eauto.
+Qed.
+Print Assumptions c13_homes_partial.
+
+(* C13-F3: a missing home declared as "/srv/ts/" ends up 0755 (the user owns a
+   0755 /srv/ts, the 0700 directory is /srv/ts/ts, root-owned) *)
+Theorem c13_homes_trailing_slash_refuted :
+  exists e f', ue_home e = "/srv/ts/" /\ ensure_home 40 tree_with_etc e = FOk f' /\
+    stat 40 tree_with_etc (path_of (ue_home e)) = FNotExist /\
+    option_map sinfo_of (match stat 40 f' (path_of (ue_home e)) with FOk n => Some n | _ => None end)
+      = Some (mkSinfo KDir spec_parent_mode (ue_uid e) (ue_gid e)) /\
+    home_realised_b (ue_uid e) (ue_gid e) None
+      (option_map sinfo_of (match stat 40 f' (path_of (ue_home e)) with FOk n => Some n | _ => None end)) = false.
+Proof. exact home_trailing_slash_refuted. Qed.
+Print Assumptions c13_homes_trailing_slash_refuted.
+
+(* c13_mutations, for the mutation applied last.  For every tree and sequence:
+   if mutatePaths succeeds on ms ++ [m], the node that m's path RESOLVES to in the
+   final tree carries m's declared permission value and owner — whatever the
+   type (each supported mutator is followed by Chmod+Chown of the path).
+   Holds for every permission value; the layer keeps it only below 0o1000
+   (c13_layer_mode).  For a symlink mutation the resolved node is the link's
+   TARGET (c13_symlink_owner_refuted, finding C13-F2).
+   MISSING from the full statement: kind (directory / regular file / link)
+   of the resolved node, the recursive case, and preservation for an EARLIER
+   mutation whose node no later mutation touches; those are checked per prefix
+   of every generated sequence by realised_tags (c13_validators_decide). *)
+Theorem c13_mutations_last_partial : forall maxl f ms m f',
+  mutate_paths maxl f (ms ++ [m]) = FOk f' ->
+  exists n, stat maxl f' (path_of (m_path m)) = FOk n /\
+            nperm n = m_perm m /\ nuid n = m_uid m /\ ngid n = m_gid m.
+Proof. exact last_mutation_post. Qed.
+Print Assumptions c13_mutations_last_partial.
+
+(* a mutation type that is not in pathMutators is rejected *)
+Theorem c13_unknown_type_rejected : forall maxl f m,
+  assoc (m_type m) path_mutators = None -> mutate_one maxl f m = FErr.
+Proof. exact unknown_type_rejected. Qed.
+Print Assumptions c13_unknown_type_rejected.
+
+(* the layer: tar.FileInfoHeader keeps exactly the modes up to 0o777 *)
+Theorem c13_layer_mode : forall p, layer_mode p = p <-> (p <= 511)%N.
+Proof. exact layer_mode_exact_iff. Qed.
+Print Assumptions c13_layer_mode.
+
+(* c13_special_bits [refuted], finding C13-F1: [directory /tmp 0o1777] succeeds,
+   the tree stores 0o1777, the layer entry says 0o777 *)
+Theorem c13_special_bits_refuted :
+  exists m f', m_perm m = 1023%N /\
+    mutate_paths 40 (empty_fs 493) [m] = FOk f' /\
+    (exists n, stat 40 f' (path_of (m_path m)) = FOk n /\ nperm n = m_perm m) /\
+    exists l, In l (layer_of f') /\ d_path l = "tmp" /\ d_perm l = 511%N /\ d_perm l <> m_perm m.
+Proof. exact special_bits_refuted. Qed.
+Print Assumptions c13_special_bits_refuted.
+
+(* finding C13-F2: the owner declared on a symlink mutation is given to the
+   link's target; the link stays 0:0 and the validator flags it *)
+Theorem c13_symlink_owner_refuted :
+  exists f m f', m_type m = "symlink" /\ mutate_paths 40 f [m] = FOk f' /\
+    (exists l, direct 40 f' (path_of (m_path m)) = FOk l /\ nkind l = KSym /\ ntarget l = m_source m /\
+               nuid l = 0%N /\ nuid l <> m_uid m) /\
+    (exists t, stat 40 f' (path_of (m_source m)) = FOk t /\ nuid t = m_uid m /\ ngid t = m_gid m /\ nperm t = m_perm m) /\
+    realised_tags m (mkStep (match direct 40 f' (path_of (m_path m)) with FOk n => Some (dentry_of "" n) | _ => None end)
+                            None 0 None []) = ["viol:symlink-owner-not-applied"].
+Proof. exact symlink_owner_refuted. Qed.
+Print Assumptions c13_symlink_owner_refuted.
+
+(* the boolean validators run on the implementation's observed results decide
+   exactly the readable statements of the two Spec files *)
+Theorem c13_validators_decide :
+  (forall old users new, passwd_realised_b old users new = true <-> PasswdRealised old users new) /\
+  (forall ra es r, run_as_resolved_b ra es r = true <-> RunAsResolved ra es r) /\
+  (forall u g b a, home_realised_b u g b a = true <-> HomeRealised u g b a) /\
+  (forall m o, In (m_type m) ["directory"; "empty-file"; "hardlink"; "symlink"; "permissions"] ->
+               (realised_tags m o = [] <-> Realised m o)) /\
+  (forall m l, layer_tags m l = [] <-> LayerRealised m l).
+Proof.
+  split; [exact passwd_realised_b_iff|]. split; [exact run_as_resolved_b_iff|].
+  split; [exact home_realised_b_iff|]. split; [exact realised_tags_iff | exact layer_tags_iff].
+Qed.
+Print Assumptions c13_validators_decide.
+
+(* non-vacuity: a home that is really created, with its parent *)
+Example c13_home_created :
+  exists f', ensure_home 40 tree_with_etc (mkUE "app" "x" 1000 1000 "" "/home/app" "/bin/sh") = FOk f' /\
+    option_map sinfo_of (match stat 40 f' (path_of "/home/app") with FOk n => Some n | _ => None end)
+      = Some (mkSinfo KDir spec_home_mode 1000 1000) /\
+    option_map sinfo_of (match stat 40 f' (path_of "/home") with FOk n => Some n | _ => None end)
+      = Some (mkSinfo KDir spec_parent_mode 0 0).
+Proof. exact home_created_example. Qed.
+
+(* non-vacuity of c13_passwd_group / c13_run_as: a colliding name, the
+   package-provided entry wins *)
+Example c13_accounts_example :
+  exists f' , mutate_accounts 40
+      [mkNode KDir 493 0 0 "" "" [("etc", 1%nat)]; mkNode KDir 493 0 0 "" "" [("passwd", 2%nat)];
+       mkNode KFile 420 0 0 "" (write_users [mkUE "app" "x" 77 77 "pkg" "/dev/null" "/bin/sh"]) []]
+      [mkCU "app" 1000 None "" ""] [mkCG "g" 5 ["app"]] "app" = FOk (f', "77") /\
+    match gnode 40 f' etc_passwd with FOk n => Some (ndata n) | _ => None end = Some (write_users [mkUE "app" "x" 77 77 "pkg" "/dev/null" "/bin/sh";
+                                          mkUE "app" "x" 1000 1000 "Account created by apko" "/home/app" "/bin/sh"]).
+Proof. eexists. split; vm_compute; reflexivity. Qed.
